@@ -572,6 +572,7 @@ impl Compiler {
                         (None, None) => {}
                     }
 
+                    self.leave_try_blocks_in_current_loop();
                     self.push_op(Jump, &[]);
                     self.push_loop_jump_placeholder()?;
 
@@ -587,6 +588,7 @@ impl Compiler {
                     if let Some(result_register) = loop_result_register {
                         self.push_op(SetNull, &[result_register]);
                     }
+                    self.leave_try_blocks_in_current_loop();
                     self.push_jump_back_op(JumpBack, &[], loop_start_ip);
 
                     CompileNodeOutput::none()
@@ -2124,7 +2126,9 @@ impl Compiler {
             _ => ResultRegister::None,
         };
 
+        self.frame_mut().try_depth += 1;
         self.compile_node(*try_block, ctx.with_register(try_result_register))?;
+        self.frame_mut().try_depth -= 1;
 
         // Clear the catch point at the end of the try block
         // - if the end of the try block has been reached then the catch block is no longer needed.
@@ -4750,6 +4754,22 @@ impl Compiler {
         let offset_ip = self.bytes.len();
         self.push_bytes(&[0, 0]);
         offset_ip
+    }
+
+    // Emits TryEnd for each try block that a `break` or `continue` is about to jump out of
+    //
+    // Without this the catch points of the try blocks would stay registered in the frame after
+    // leaving them, and a later error in the frame would jump back into a stale catch block.
+    fn leave_try_blocks_in_current_loop(&mut self) {
+        let frame = self.frame();
+        let try_blocks_in_loop = match frame.current_loop() {
+            Some(loop_info) => frame.try_depth.saturating_sub(loop_info.try_depth),
+            None => 0,
+        };
+        for _ in 0..try_blocks_in_loop {
+            // A dummy byte is appended to TryEnd as required by the bytecode format.
+            self.push_op_without_span(Op::TryEnd, &[0]);
+        }
     }
 
     fn push_loop_jump_placeholder(&mut self) -> Result<()> {
